@@ -332,7 +332,7 @@ def run_cache_readers(chk, F):
                'order) or stale (assign_filtration does not drop it), the complex must not depend on it'
                % (bad[0].get('l'), ir.show(bad[1])[:80] if bad[1] is not None else '?'),
                key='E2|%s|cache-reader' % f['name'])
-    chk.expect_count('E2-cache-readers', 'functions mentioning the cache', n, 8)
+    chk.expect_count('E2-cache-readers', 'functions mentioning the cache', n, 5)
 
 
 def run_prune_rules(chk, F):
